@@ -3954,14 +3954,39 @@ type lstate =
 | LNum of char list
 | LStar
 | LOp of char
+| LWord
 
 (** val flush : lstate -> ctok list **)
 
 let flush = function
-| LNone -> []
 | LNum a -> (CNum (rev_str a [])) :: []
 | LStar -> CStar :: []
 | LOp c -> (op1 c) :: []
+| _ -> []
+
+(** val fuses : lstate -> tmatch -> bool **)
+
+let fuses st m =
+  match st with
+  | LNum _ ->
+    (match m.mkind with
+     | KParameter -> true
+     | KError -> true
+     | _ -> false)
+  | LWord ->
+    (match m.mkind with
+     | KParameter -> true
+     | KError -> true
+     | _ -> false)
+  | _ -> false
+
+(** val after_match : tmatch -> lstate **)
+
+let after_match m =
+  match m.mkind with
+  | KVerbatim -> LWord
+  | KKeyword -> LWord
+  | _ -> LNone
 
 (** val lex_items : lstate -> item list -> ctok list **)
 
@@ -3989,7 +4014,10 @@ let rec lex_items st = function
                     then app (flush st) (lex_items LNone r)
                     else app (flush st)
                            ((tok_of_char c) :: (lex_items LNone r))
-   | Tok (_, m) -> app (flush st) ((tok_of_match m) :: (lex_items LNone r)))
+   | Tok (_, m) ->
+     app (flush st)
+       (app (if fuses st m then CBad :: [] else [])
+         ((tok_of_match m) :: (lex_items (after_match m) r))))
 
 (** val lit_dots : char list -> nat **)
 
